@@ -23,7 +23,8 @@ import vlib
 
 GEN_DEPS = ('builtins', 'prefixes')
 SEEDS = ['0', '1', '2', 'random']
-ORDERED_KEYS = ('var_order', 'eq_order', 'states', 'derived', 'derivatives', 'eqs_for', 'eqs_for_units', 'eqs_for_top',
+ORDERED_KEYS = ('var_order', 'eq_order', 'states', 'derived', 'derivatives', 'states_unsorted', 'derived_unsorted',
+                'derivatives_unsorted', 'eqs_for', 'eqs_for_units', 'eqs_for_top',
                 'eqs_for_each', 'free')
 # name-sorted queries: their answers depend on the equation graph only, never on the order of anything in the file
 GRAPH_KEYS = ('eqs_for', 'eqs_for_units', 'eqs_for_top', 'eqs_for_each', 'free')
